@@ -136,6 +136,72 @@ theorem approve_once {s : St} (hI : Inv s) {b : Buf} {id : Nat} (hb : s.bufs id 
   have h1 : b.approved = true := by rcases ha with h | h; exact h; exact hf.2 h
   simp [approve, hb, h1]
 
+/-! ## batch approval (`approve_instructions`) and "approved by a holder of the corresponding role" -/
+
+/-- **Batch approval is a list of ordinary approvals for ONE executor**: a successful batch means the caller holds
+the timelocked role named by the call and EVERY listed buffer satisfies the conclusion of `approve_spec` for that same
+role — it exists, belongs to that role's executor, was unapproved, and is now approved by the caller at `now` with its
+instruction untouched; unlisted buffers, the delay and the role table are unchanged; no buffer is listed twice. -/
+theorem approveBatch_spec {s s' : St} {now : Int} {caller r : Nat} {ids : List Nat}
+    (h : approveBatch s now caller r ids = some s') :
+    s.mem caller (tld r) = true ∧
+    (∀ id, id ∈ ids → ∃ b, s.bufs id = some b ∧ b.role = r ∧ s.mem caller (tld b.role) = true ∧
+        b.approved = false ∧ b.approver = none ∧
+        s'.bufs id = some { b with approved := true, approvedAt := now, approver := some caller }) ∧
+    (∀ id, id ∉ ids → s'.bufs id = s.bufs id) ∧ s'.delay = s.delay ∧ s'.mem = s.mem ∧ ids.Nodup := by
+  obtain ⟨hm, hd, hmem, hin, hout, hnd⟩ := approveBatch_some ids h
+  refine ⟨hm, ?_, hout, hd, hmem, hnd⟩
+  intro id hid
+  obtain ⟨b, hb, hr, h1, h2, hs'⟩ := hin id hid
+  exact ⟨b, hb, hr, by rw [hr]; exact hm, h1, h2, hs'⟩
+
+/-- **A batch containing a buffer of another role's executor is rejected as a whole** (so is one containing a missing
+or an already approved buffer) — nothing is approved. -/
+theorem approveBatch_foreign_rejected (s : St) (now : Int) (caller r : Nat) (ids : List Nat) (id : Nat) (hid : id ∈ ids)
+    (hbad : ∀ b, s.bufs id = some b → b.role ≠ r ∨ b.approved = true) :
+    approveBatch s now caller r ids = none := by
+  rcases Option.eq_none_or_eq_some (approveBatch s now caller r ids) with h | ⟨s', h⟩
+  · exact h
+  · obtain ⟨_, _, _, hin, _, _⟩ := approveBatch_some ids h
+    obtain ⟨b, hb, hr, hna, _, _⟩ := hin id hid
+    rcases hbad b hb with h1 | h1
+    · exact absurd hr h1
+    · rw [hna] at h1; cases h1
+
+/-- the batch is equivalent to approving its buffers one after the other (when the caller holds the role). -/
+theorem approveBatch_cons (s : St) (now : Int) (caller r id : Nat) (ids : List Nat) :
+    approveBatch s now caller r (id :: ids) = (approve s now caller id r).bind (fun s1 => approveBatch s1 now caller r ids) := by
+  simp only [approveBatch]
+  cases approve s now caller id r <;> rfl
+
+/-- **Execution requires, with the approval-time clause**: in any state reached from an empty timelock by any history
+(ghost `held` maintained by `gstep`: set at approval to "the approver holds the timelocked role of the executor the
+buffer belongs to"), a successful execution means the buffer is approved, its approver held the buffer's own
+timelocked role WHEN APPROVING and holds it NOW, `approved_at ⊕ delay` has passed, the caller is a keeper, and the
+instruction is the buffered one. -/
+theorem execute_requires_held (d : Nat) (ops : List Op) {s' : St} {now : Int} {caller id r rr : Nat} {ix : Ix}
+    (h : exec (grun (ginit d) ops).1.s now caller id r rr = some (s', ix)) :
+    ∃ b a, (grun (ginit d) ops).1.s.bufs id = some b ∧ b.approved = true ∧ b.approver = some a ∧
+      (grun (ginit d) ops).1.held id = true ∧
+      (grun (ginit d) ops).1.s.mem a (tld b.role) = true ∧
+      executableAt b.approvedAt (grun (ginit d) ops).1.s.delay ≤ now ∧
+      (grun (ginit d) ops).1.s.mem caller KEEPER = true ∧ ix = b.ix ∧ s'.bufs id = none := by
+  obtain ⟨b, a, hb, hap, ha, hm, ht, hk, hix, hn⟩ := execute_requires h
+  exact ⟨b, a, hb, hap, ha, ginv_run (ginv_init d) ops id b hb hap, hm, ht, hk, hix, hn⟩
+
+/-- the ghost is what the property text says: when an approval (single or batch) of buffer `id` succeeds, the ghost
+recorded for `id` is "the approver holds `tld` of the role stored IN THE BUFFER" evaluated in the state before. -/
+theorem ghost_is_role_of_own_executor (g : GSt) (now : Int) (caller id r : Nat) (s' : St)
+    (h : approve g.s now caller id r = some s') :
+    (gstep g (.approve now caller id r)).1.held id = heldNow g.s caller id ∧
+    (gstep g (.approve now caller id r)).1.s = s' := by
+  simp [gstep, step, h]
+
+/-- the ghost run is the ordinary run (same states, same events). -/
+theorem ghost_run_is_run (d : Nat) (ops : List Op) :
+    (grun (ginit d) ops).1.s = (run (init d) ops).1 ∧ (grun (ginit d) ops).2 = (run (init d) ops).2 :=
+  grun_run (ginit d) ops
+
 /-- **The delay can only increase**, over any history. -/
 theorem delay_monotone (s : St) (ops : List Op) : s.delay ≤ (run s ops).1.delay := by
   induction ops generalizing s with
@@ -248,5 +314,23 @@ example : (run (init 300) (demoOps.take 5 ++ [.cancel 130 1 3 1 0])).2.getLast? 
 example : ((run (init 300) (demoOps.take 5)).1.bufs 3).map (·.approved) = some true ∧
     (approve (run (init 300) (demoOps.take 5)).1 120 2 3 1).isNone = true := by decide
 example : (increaseDelay (run (init 300) (demoOps.take 3)).1 1 50).isSome = true := by decide
+
+/-! batch approval: buffers 3 (role 1) and 4 (role 0 = ADMIN). User 2 holds only `tld 1`. A same-executor batch [3]
+succeeds; the mixed batch [3, 4] through role 1's executor is rejected as a whole (nothing approved); so the seeded
+history — approve the ADMIN buffer through the MARKET_KEEPER executor, get `tld 0` later, execute after the delay —
+executes nothing. -/
+private def batchOps : List Op :=
+  [.grant 0 KEEPER, .grant 2 (tld 1),
+   .create 100 0 3 1 2 0 0 0 "-" [] [], .create 100 0 4 0 2 0 0 0 "-" [] []]
+example : (run (init 300) (batchOps ++ [.approveb 110 2 1 [3, 4]])).2.getLast? = some .none := by decide
+example : (run (init 300) (batchOps ++ [.approveb 110 2 1 [3]])).2.getLast? = some (.approvedBatch [3] 2) := by decide
+example : (run (init 300) (batchOps ++ [.approveb 110 2 1 [3, 4], .grant 2 (tld 0), .exec 500 0 4 0 0])).2.getLast? = some .none := by decide
+example : (run (init 300) (batchOps ++ [.approveb 110 2 1 [3, 3]])).2.getLast? = some .none ∧
+    (run (init 300) (batchOps ++ [.approveb 110 2 1 [3, 7]])).2.getLast? = some .none ∧
+    (run (init 300) (batchOps ++ [.approveb 110 2 1 []])).2.getLast? = some (.approvedBatch [] 2) ∧
+    (run (init 300) (batchOps ++ [.approveb 110 0 1 []])).2.getLast? = some .none := by decide
+example : (grun (ginit 300) (batchOps ++ [.approveb 110 2 1 [3]])).1.held 3 = true ∧
+    (grun (ginit 300) (batchOps ++ [.approveb 110 2 1 [3]])).1.held 4 = false ∧
+    (exec (grun (ginit 300) (batchOps ++ [.approveb 110 2 1 [3]])).1.s 410 0 3 1 0).isSome = true := by decide
 
 end Gmx.C36
